@@ -473,3 +473,93 @@ func (e *Effects) FuncKey(fn *ssa.Function) string {
 	s := fn.RelString(fn.Package().Pkg)
 	return rel + "." + s
 }
+
+// GlobalEscape: the address of a package-level variable (or of a part of it) is used other
+// than for a plain load or a store: handed to a call (e.g. as the receiver of a
+// pointer-receiver method such as (*sync.Map).Load), captured, merged or converted. Such a
+// variable is shared mutable state whose accesses this analysis cannot follow.
+type GlobalEscape struct {
+	Fn     *ssa.Function
+	Global string
+	Pos    token.Pos
+	How    string
+}
+
+// GlobalEscapes lists the escapes in one function. Loads, stores (reported separately as write
+// effects) and address arithmetic (field / element addresses, followed recursively) are fine.
+func (e *Effects) GlobalEscapes(fn *ssa.Function) []GlobalEscape {
+	var out []GlobalEscape
+	seen := map[ssa.Value]bool{}
+	var follow func(addr ssa.Value, g *ssa.Global)
+	follow = func(addr ssa.Value, g *ssa.Global) {
+		if seen[addr] {
+			return
+		}
+		seen[addr] = true
+		var refs []ssa.Instruction
+		if addr == ssa.Value(g) {
+			for _, b := range fn.Blocks {
+				for _, in := range b.Instrs {
+					for _, op := range in.Operands(nil) {
+						if *op == addr {
+							refs = append(refs, in)
+						}
+					}
+				}
+			}
+		} else if r := addr.Referrers(); r != nil {
+			refs = *r
+		}
+		name := g.Pkg.Pkg.Name() + "." + g.Name()
+		for _, in := range refs {
+			switch x := in.(type) {
+			case *ssa.UnOp:
+				if x.Op == token.MUL {
+					continue
+				}
+				out = append(out, GlobalEscape{fn, name, x.Pos(), "operand of " + x.Op.String()})
+			case *ssa.Store:
+				if x.Addr == addr {
+					continue // a write effect, reported by the write rules
+				}
+				out = append(out, GlobalEscape{fn, name, x.Pos(), "its address is stored"})
+			case *ssa.FieldAddr:
+				follow(x, g)
+			case *ssa.IndexAddr:
+				follow(x, g)
+			case *ssa.DebugRef:
+			case ssa.CallInstruction:
+				callee := "a dynamic call"
+				if sc := x.Common().StaticCallee(); sc != nil {
+					callee = sc.String()
+				}
+				pos := x.Pos()
+				if !pos.IsValid() {
+					pos = fn.Pos()
+				}
+				out = append(out, GlobalEscape{fn, name, pos, "its address is passed to " + callee})
+			default:
+				out = append(out, GlobalEscape{fn, name, in.Pos(), fmt.Sprintf("its address is used by %T", in)})
+			}
+		}
+	}
+	globals := map[*ssa.Global]bool{}
+	for _, b := range fn.Blocks {
+		for _, in := range b.Instrs {
+			for _, op := range in.Operands(nil) {
+				if g, ok := (*op).(*ssa.Global); ok {
+					globals[g] = true
+				}
+			}
+		}
+	}
+	var gs []*ssa.Global
+	for g := range globals {
+		gs = append(gs, g)
+	}
+	sort.Slice(gs, func(i, j int) bool { return gs[i].String() < gs[j].String() })
+	for _, g := range gs {
+		follow(g, g)
+	}
+	return out
+}
